@@ -312,8 +312,35 @@ def _list_query(case, root, stacks):
         res = {"err": "Malformed"}
     except Exception as ex:  # noqa
         res = {"err": "BadExpr" if type(ex).__name__ == "EupsException" else "E:" + type(ex).__name__}
+    def ref(p):
+        return None if p is None else [stacks.index(p.stackRoot()), p.version]
+
+    def guarded(f):
+        try:
+            with contextlib.redirect_stderr(io.StringIO()), contextlib.redirect_stdout(io.StringIO()):
+                return f()
+        except IndexError:
+            return {"err": "IndexError"}
+        except AttributeError:
+            return {"err": "Malformed"}
+        except Exception as ex:  # noqa
+            return {"err": "BadExpr" if type(ex).__name__ == "EupsException" else "E:" + type(ex).__name__}
+
+    arg = case["version"]
+    find = entry = None
+    if arg:
+        # the other entry points that take a version argument: findProduct(name, arg) (a relational argument goes to
+        # _findPreferredProductByExpr and the session's preferred tags) and the way `setup prod arg` resolves it
+        if case["argkind"] == "expr":
+            find = guarded(lambda: ref(e.findProduct("prod", arg)))
+
+        def vro():
+            p, why = e.findProductFromVRO("prod", version=arg, vro=["version", "versionExpr"])
+            # which VRO entry found it: the expression, or the explicit version (reported as "version" or "commandLine")
+            return [ref(p), None if not why else "versionExpr" if why[0] == "versionExpr" else "explicit"]
+        entry = guarded(vro)
     allv = list(dict.fromkeys(d["ver"] for st in case["stacks"] for d in st))
-    return {"products": res,
+    return {"products": res, "find": find, "entry": entry, "preferred": list(e.preferredTags),
             "terms": {v: [impl_cmp(v, tv, True) for _, tv in case["terms"]] for v in allv},
             "order": {v: "".join(impl_cmp(w, v, False) for w in allv) for v in allv}}
 
@@ -547,7 +574,8 @@ def eval_small(ctx, cases):
         elif c["kind"] == "legal":
             reqs.append({"m": "c10", "op": "legal", "expr": c["expr"]})
         elif c["kind"] == "list":
-            reqs.append({"m": "c10", "op": "list", "version": c["version"], "tags": c["tags"], "stacks": c["stacks"]})
+            reqs.append({"m": "c10", "op": "list", "version": c["version"], "tags": c["tags"], "stacks": c["stacks"],
+                         "preferred": impl[len(reqs)]["preferred"]})     # the session's preferred tags are part of the input
         elif c["kind"] == "stack":
             reqs.append({"m": "c10", "op": "stacksboth", "stacks": c["stacks"], "expr": c["expr"], "minver": c.get("minver") or ""})
         else:
@@ -749,6 +777,7 @@ def eval_list(ctx, c, inp, io_, ans):
     mo = ans["products"] if "products" in ans else {"err": ans["err"]}
     if got != mo:
         ctx.disagree("findProducts", inp, got, mo)
+    eval_list_entries(ctx, c, inp, io_, ans)
     if isinstance(got, dict):
         ctx.hist("list/outcome=" + got["err"])
         if c["argkind"] in ("expr", "none", "glob") and c.get("pure", True):
@@ -822,6 +851,91 @@ def eval_list(ctx, c, inp, io_, ans):
                 ctx.fail("list_tagged_complete", inp, got, mo, note="%r carry a requested tag, satisfy the request and are not listed" % missing[:3])
 
 
+def eval_list_entries(ctx, c, inp, io_, ans):
+    """findProduct(name, arg) and findProductFromVRO(name, version=arg, vro=[version, versionExpr]) on a listing case."""
+    stacks, arg = c["stacks"], c["version"]
+    if not arg:
+        return
+    allv = list(dict.fromkeys(d["ver"] for st in stacks for d in st))
+    decl = {(i, d["ver"]): d["tags"] for i, st in enumerate(stacks) for d in st}
+    pure = c["argkind"] == "expr" and c.get("pure")
+    sat = {}
+    if pure:
+        for v in allv:
+            ex = expected_match(c, {"terms": io_["terms"][v]})
+            sat[v] = None if ex is None else ex[1] == "match"
+        if any(x is None for x in sat.values()):
+            pure = False
+    both = {"find": io_["find"], "entry": io_["entry"]}
+    mboth = {"find": ans["find"], "entry": ans["entry"]}
+
+    def later_than(v, among):
+        col = io_["order"][v]
+        return [w for w in among if col[allv.index(w)] == ">"]
+
+    # ---- findProduct(name, expr)
+    if c["argkind"] == "expr":
+        got = io_["find"]
+        ctx.hist("find/outcome=" + ("err" if isinstance(got, dict) else "none" if got is None else "some"))
+        if got != ans["find"]:
+            ctx.disagree("findProduct(expr)", inp, both, mboth)
+        if pure and not isinstance(got, dict):
+            # a version string counts once, for the first stack (path order) that declares it
+            matching = [(i, v) for (i, v) in decl if sat[v] and not any((j, v) in decl for j in range(i))]
+            if (got is None) != (not matching):
+                ctx.fail("find_by_expr_exists", inp, both, mboth, note="findProduct = %r, matching %r" % (got, matching[:4]))
+            elif got is not None:
+                got = tuple(got)
+                if got not in decl:
+                    ctx.fail("find_by_expr_declared", inp, both, mboth, note="%r is not declared there" % (got,))
+                elif not sat[got[1]]:
+                    ctx.fail("find_by_expr_satisfies_request", inp, both, mboth,
+                             note="%r compares %s with the terms" % (got[1], io_["terms"][got[1]]))
+                else:
+                    pref = [t for t in io_["preferred"] if t in LIST_TAGS or t == "latest"]
+                    first = next((t for t in pref if t == "latest" or any(t in decl[m] for m in matching)), None)
+                    ctx.hist("find/decided-by=%s" % first)
+                    if first == "latest":
+                        bad = later_than(got[1], [v for _, v in matching])
+                        if bad:
+                            ctx.fail("find_by_expr_is_max", inp, both, mboth, note="no matching version carries a preferred tag; %r is later than %r" % (bad[:3], got[1]))
+                    elif first is not None and first not in decl[got]:
+                        ctx.fail("find_by_expr_prefers_tag", inp, both, mboth, note="a matching version carries %r; %r does not" % (first, got))
+    # ---- the way `setup prod arg` resolves its argument
+    got = io_["entry"]
+    kind = "err" if isinstance(got, dict) else ("none" if got[0] is None else str(got[1]))
+    ctx.hist("entry/%s/%s" % (c["argkind"], kind))
+    if got != ans["entry"]:
+        ctx.disagree("findProductFromVRO(version,versionExpr)", inp, both, mboth)
+    if isinstance(got, dict):
+        if c["argkind"] != "bad" and c.get("pure", True):
+            ctx.fail("entry_no_crash", inp, both, mboth, note="raised %s" % got["err"])
+        return
+    if c["argkind"] == "bad":
+        ctx.fail("entry_refuses_single_equals", inp, both, mboth, note="a single = was accepted")
+        return
+    if pure:
+        matching = [v for v in allv if sat[v]]
+        if (got[0] is None) != (not matching):
+            ctx.fail("entry_exists", inp, both, mboth, note="resolved to %r, matching %r" % (got[0], matching[:4]))
+        elif got[0] is not None:
+            r = tuple(got[0])
+            if r not in decl:
+                ctx.fail("entry_declared", inp, both, mboth, note="%r is not declared there" % (r,))
+            elif not sat[r[1]]:
+                ctx.fail("entry_satisfies_request", inp, both, mboth, note="%r compares %s with the terms" % (r[1], io_["terms"][r[1]]))
+            else:
+                bad = later_than(r[1], matching)
+                if bad:
+                    ctx.fail("entry_is_latest_of_matches", inp, both, mboth, note="%r satisfy the request and are later than %r" % (bad[:3], r[1]))
+    elif c["argkind"] == "glob" and not any(ch in arg for ch in "*?[] \t|&"):
+        # a plain version name: exactly that string, from the first stack that declares it
+        where = [i for i, st in enumerate(stacks) if any(d["ver"] == arg for d in st)]
+        want = [[where[0], arg], "explicit"] if where else [None, None]
+        if got != want:
+            ctx.fail("entry_exact_version", inp, both, mboth, note="expected %r" % (want,))
+
+
 def gen_lists(ctx, pool, n):
     """Listing requests: stacks with tagged versions, a version argument (expression / shell pattern / none / refused), tags."""
     rng = ctx.rng
@@ -863,8 +977,9 @@ def gen_lists(ctx, pool, n):
                 if any(ch in arg for ch in "[]"):
                     continue
         elif r < 0.75:
-            v = rng.choice(names)
-            arg = rng.choice([v, v[:max(1, len(v) // 2)] + "*", "*", "?" + v[1:], "*" + v[-1:], v + "?", v[:1] + "*" + v[-1:]])
+            declared = [d["ver"] for st in stacks for d in st]
+            v = rng.choice(declared) if (declared and rng.random() < 0.8) else rng.choice(names)
+            arg = rng.choice([v, v, v, v[:max(1, len(v) // 2)] + "*", "*", "?" + v[1:], "*" + v[-1:], v + "?", v[:1] + "*" + v[-1:]])
             kind = "glob"
         elif r < 0.92:
             arg, kind = "", "none"
@@ -1100,7 +1215,8 @@ def run(ctx, sz=None):
         if not ctx.out_of_time():
             for k, floor in (("list/tagged-version-fails-expression", 3), ("list/tagged-version-satisfies-expression", 3),
                              ("list/latest-of-a-stack-fails-expression", 1), ("list/tags=none", 3), ("list/tags=latest", 1),
-                             ("list/arg=glob", 3), ("list/arg=none", 3), ("list/arg=bad", 1)):
+                             ("list/arg=glob", 3), ("list/arg=none", 3), ("list/arg=bad", 1), ("find/decided-by=current", 2),
+                             ("find/decided-by=latest", 2), ("entry/expr/versionExpr", 3), ("entry/glob/explicit", 1)):
                 if ctx.histogram.get(k, 0) < floor:
                     raise common.InfraError("degenerate distribution: %d listing cases under %r (floor %d)" % (ctx.histogram.get(k, 0), k, floor))
     if pool and not ctx.out_of_time():
